@@ -129,6 +129,13 @@ func runC05(cx *Ctx, r *Report) {
 				okP = okP && z
 			}
 			r.check(okP, "unstake-persist", "Unstake", pos, "the reduced farmer record is written back, or deleted exactly when the remaining stake is zero", "the reduced farmer record is not always persisted (or is deleted without the zero test)")
+			// both pool-total reductions are stored afterwards on every path
+			okPool := persistedAfter(direct[0], evs, "farm:FarmPoolKey=0x06") && persistedAfter(shared[0], evs, "farm:FarmPoolKey=0x06")
+			r.check(okPool, "unstake-pool-persist", "Unstake", direct[0].ev.Pos(cx), "the reduced pool total is stored after the reduction on both routes", "the pool total is reduced but the pool is not stored afterwards on every path (the store precedes the reduction or is skipped): the recorded total stays above the sum of the farmers' stakes")
+			// the route that bypasses the shared pool update is taken exactly when the pool has ended
+			_, e1 := direct[0].fact(true, "farm/keeper.Keeper.Expired(")
+			_, e2 := shared[0].fact(false, "farm/keeper.Keeper.Expired(")
+			r.check(e1 && e2, "unstake-route-guard", "Unstake", direct[0].ev.Pos(cx), "the direct route holds Expired(pool) and the releasing route holds ¬Expired(pool) (Expired treats the end block itself as running until the end blocker has taken the pool off the queue)", "the unstake routes are not selected by the pool's Expired test: a pool in its final block would skip the reward release (or an ended pool would run it)")
 		} else {
 			r.violate("unstake-double-entry", "Unstake|inventory", pos, fmt.Sprintf("Unstake bookkeeping events: pay %d, locked %d, direct pool %d, shared pool %d (expected 1 each)", len(pay), len(lock), len(direct), len(shared)))
 		}
@@ -188,6 +195,8 @@ func runC05(cx *Ctx, r *Report) {
 	}
 	cx.rewardFormula(r)
 	r.requireCount("reward-formula", 1)
+	r.requireCount("unstake-pool-persist", 1)
+	r.requireCount("unstake-route-guard", 1)
 }
 
 func orderedBeforeInstr(a, b ssa.Instruction) bool {
@@ -370,6 +379,23 @@ func runC06(cx *Ctx, r *Report) {
 		}
 	}
 	cx.lostUpdateRule(r, []string{"farm"}, 20)
+	// every reward payout is preceded by the pool's reward release unless the pool has ended:
+	// the only route around the shared pool update (Unstake) is selected by Expired(pool)
+	{
+		evs := per["Unstake"]
+		direct := pick(evs, "delta:FarmPool.TotalLptLocked:-", nil)
+		shared := pick(evs, "assign:FarmPool.TotalLptLocked", nil)
+		ok := len(direct) == 1 && len(shared) == 1
+		pos := ""
+		if ok {
+			pos = direct[0].ev.Pos(cx)
+			_, e1 := direct[0].fact(true, "farm/keeper.Keeper.Expired(")
+			_, e2 := shared[0].fact(false, "farm/keeper.Keeper.Expired(")
+			ok = e1 && e2
+		}
+		r.check(ok, "release-before-payout", "Unstake", pos, "an unstake skips the reward release only when Expired(pool) holds (the end block itself counts as running until the end blocker has dequeued the pool)", "an unstake can skip the reward release although the pool has not ended by its Expired test: the leaving farmer loses, and the remaining farmers gain, the rewards accrued since the last release")
+	}
+	r.requireCount("release-before-payout", 1)
 	cx.rewardFormula(r)
 	r.requireCount("reward-formula", 1)
 	r.requireCount("budget-release", 5)
